@@ -5,7 +5,6 @@ CONSTANTS
   SwHoldDuringBody = FALSE
   SwInitNested = FALSE
   SwShareSet = FALSE
-  SwNewNoMarker = FALSE
   SwFutureNotAwaited = FALSE
   AsyncSched = FALSE
 INVARIANT PrintDone
